@@ -25,6 +25,35 @@ ASSUMPTIONS = ["std::deque behaves as documented (size, resize, push_back, pop_f
 UNIT = "undo-history.cpp"
 
 
+def _unit_method(u, name):
+    """a method / function of the unit with that name and a body (helpers are evaluated in place)"""
+    cands = [f for q, fl in u.functions.items() if q.split("::")[-1] == name for f in fl if u.body(f) is not None]
+    return cands[0] if len(cands) == 1 else None
+
+
+def _position_access(n, ev, st):
+    """reads and writes of the history position, however it is reached (impl->history_pos, this->history_pos, history_pos)"""
+    k = n.get("kind")
+
+    def is_pos(e):
+        e = A.strip_casts(e)
+        return e.get("kind") == "MemberExpr" and e.get("name") == "history_pos"
+    if k == "MemberExpr" and n.get("name") == "history_pos":
+        return st["pos"]
+    if k == "UnaryOperator" and n.get("opcode") in ("++", "--") and is_pos(A.kids(n)[0]):
+        old = st["pos"]
+        st["pos"] = old + (1 if n.get("opcode") == "++" else -1)
+        return old if n.get("isPostfix") else st["pos"]
+    if k == "BinaryOperator" and n.get("opcode") == "=" and is_pos(A.kids(n)[0]):
+        st["pos"] = ev.ev(A.kids(n)[1])
+        return st["pos"]
+    if k == "CompoundAssignOperator" and is_pos(A.kids(n)[0]):
+        v = ev.ev(A.kids(n)[1])
+        st["pos"] = st["pos"] + v if n.get("opcode") == "+=" else st["pos"] - v
+        return st["pos"]
+    return NotImplemented
+
+
 def run(ctx):
     u = ctx.ast(UNIT)
     ctx.rule("R15.1", "EVENT-ROLES: rewind sends (argument 0 as address, argument 1 = old value), replay (argument 0, argument 2 = new value), each with the single type tag at offset 2 of the event's type string; mergeEvent splices (address, old of the stored event, new of the incoming event)")
@@ -110,6 +139,9 @@ def run(ctx):
 
                 def hook(n, ev, st=st, acts=acts, size=size):
                     k = n.get("kind")
+                    r_ = _position_access(n, ev, st)
+                    if r_ is not NotImplemented:
+                        return r_
                     if k == "CXXMemberCallExpr":
                         cal = A.strip_casts(A.kids(n)[0])
                         nm = cal.get("name")
@@ -119,6 +151,9 @@ def run(ctx):
                             v = ev.ev(A.kids(n)[1])
                             acts.append((nm, v[1] if isinstance(v, tuple) else v))
                             return 0
+                        hm = _unit_method(u, nm)
+                        if hm is not None:
+                            return ev.call_function(u, hm, [ev.ev(a) for a in A.kids(n)[1:]])
                     if k == "CXXOperatorCallExpr" and "operator[]" in A.src(A.kids(n)[0]):
                         return ("elem", ev.ev(A.kids(n)[2]))
                     if k == "MemberExpr" and n.get("name") == "second":
@@ -126,7 +161,7 @@ def run(ctx):
                     if k == "MemberExpr" and n.get("name") == "history":
                         return "HIST"
                     return NotImplemented
-                ev = FD.Eval(env={dist_id: dist, "member:this->impl->history_pos": pos, "member:impl->history_pos": pos}, node_hook=hook, max_steps=4000)
+                ev = FD.Eval(env={dist_id: dist}, node_hook=hook, max_steps=4000)
                 try:
                     try:
                         ev.run(u.body(fs))
@@ -134,10 +169,7 @@ def run(ctx):
                         pass
                 except FD.Unknown as e:
                     raise AnalysisBroken("R15.2: seekHistory not evaluable: %s" % e)
-                endpos = ev.env.get("member:this->impl->history_pos", ev.env.get("member:impl->history_pos"))
-                keys_changed = [k_ for k_ in ("member:this->impl->history_pos", "member:impl->history_pos") if ev.env.get(k_) != pos]
-                if keys_changed:
-                    endpos = ev.env[keys_changed[0]]
+                endpos = st["pos"]
                 dest = max(0, min(size, pos + dist))
                 exp = [("rewind", i) for i in range(pos - 1, dest - 1, -1)] if dest < pos else [("replay", i) for i in range(pos, dest)]
                 ncase += 1
@@ -154,16 +186,22 @@ def run(ctx):
     for size in range(0, CAP + 1):
         for pos in range(0, size + 1):
             for merged in (0, 1):
-                st = {"size": size}
+                st = {"size": size, "pos": pos}
                 log = []
 
                 def hook(n, ev, st=st, log=log, merged=merged):
                     k = n.get("kind")
+                    r_ = _position_access(n, ev, st)
+                    if r_ is not NotImplemented:
+                        return r_
                     if k == "CXXMemberCallExpr":
                         cal = A.strip_casts(A.kids(n)[0])
                         nm = cal.get("name")
                         if nm == "size":
                             return st["size"]
+                        hm = _unit_method(u, nm) if nm not in ("mergeEvent", "resize", "push_back", "pop_front", "front", "back") else None
+                        if hm is not None:
+                            return ev.call_function(u, hm, [ev.ev(a) for a in A.kids(n)[1:]])
                         if nm == "resize":
                             st["size"] = ev.ev(A.kids(n)[1])
                             log.append(("resize", st["size"]))
@@ -184,7 +222,7 @@ def run(ctx):
                     if k == "MemberExpr" and n.get("name") == "max_history_size":
                         return CAP
                     return NotImplemented
-                ev = FD.Eval(env={"member:this->impl->history_pos": pos, "member:impl->history_pos": pos}, node_hook=hook, max_steps=4000)
+                ev = FD.Eval(env={}, node_hook=hook, max_steps=4000)
                 try:
                     try:
                         ev.run(u.body(fr))
@@ -192,8 +230,7 @@ def run(ctx):
                         pass
                 except FD.Unknown as e:
                     raise AnalysisBroken("R15.3: recordEvent not evaluable: %s" % e)
-                endpos = [ev.env[k_] for k_ in ("member:this->impl->history_pos", "member:impl->history_pos") if ev.env.get(k_) != pos]
-                endpos = endpos[0] if endpos else pos
+                endpos = st["pos"]
                 if merged:
                     exp_size, exp_pos = pos, pos
                 else:
